@@ -475,6 +475,9 @@ func (e *Engine) builtinModel(vc *VC, ins *ssa.Call, f *ssa.Function, args []*Va
 				bt = bvExtract(8*pos(i)+7, 8*pos(i), v.C[0])
 			}
 			vc.storeScalar(h, bl, b.C[0], cell(i), vc.bv(bt, 8, false, types.Typ[types.Uint8]))
+			if vc.ringMode && i == 0 {
+				h.m["fe"] = vc.define("H", heapSort("fe"), sto(h.m["fe"], b.C[0], vc.fresh("A", innerSort("fe"))))
+			}
 		}
 		vc.vals[ins] = &Val{K: KUnit}
 		return true
